@@ -79,7 +79,7 @@ UTset == {UT[j] : j \in DOMAIN UT}
 Shard  == atoi(IOEnv.SHARD)
 NShard == atoi(IOEnv.NSHARD)
 BranchSets == {B \in SUBSET UBset : B # {} /\ Cardinality(B) <= MaxB /\
-                 (LET code == FoldSet(LAMBDA b, acc : acc + Idx(b) * Idx(b), 0, B) IN code % NShard = Shard)}
+                 (LET code == FoldSet(LAMBDA b, acc : acc + 7 * Idx(b), 3 * Cardinality(B), B) IN code % NShard = Shard)}
 ASSUME ndJsonSerialize(IOEnv.OUT_FILE,
          SetToSeq({c \in UNION {{Case(B, T, d) : T \in SUBSET UTset, d \in B} : B \in BranchSets} : TRUE}))
 
